@@ -69,6 +69,11 @@ let () = iter_lines (fun line ->
        | Some (((((d, mo), y), h), mi), se) -> String.concat " " (List.map (fun x -> string_of_int (int_of_n x)) [d; mo; y; h; mi; se]))
   | ["paramhdr"; sch; d] -> res to_s (params_to_header (s_of sch) (List.map kv_opt (split '|' d)))
   | ["digesthdr"; d] -> to_s (www_digest_to_header (List.map kv (split '|' d)))
+  | ["pdate3"; v] ->
+      (match parse_date_shapes (s_of v) with
+       | None -> "~"
+       | Some ((((((d, mo), y), h), mi), se), off) ->
+         String.concat " " (List.map (fun x -> string_of_int (int_of_n x)) [d; mo; y; h; mi; se]) ^ " " ^ tz off)
   | ["title"; v] -> to_s (py_title (s_of v))
   | ["pint"; v] -> res tz (plain_int (s_of v))
   | ["int"; v] -> res tz (py_int (s_of v))
